@@ -113,6 +113,10 @@ class Sched:
             except Pruned:
                 self._abort("pruned")
                 raise
+            except BaseException as e:      # an error of the machinery inside a thread: never let it look like library behaviour
+                self.harness_error = e
+                self._abort("error")
+                raise Pruned()
             if not c:
                 return
         nxt = enabled[c]
@@ -183,9 +187,17 @@ class Sched:
             self.sems[c].release()
         ok = self.done.wait(timeout)
         if not ok:
+            import traceback
+            frames = sys._current_frames()
+            dump = []
+            for t in threads:
+                f = frames.get(t.ident)
+                if f is not None:
+                    dump.append(f"--- thread {t.name}:\n" + "".join(traceback.format_stack(f)[-6:]))
             self._abort("error")
             raise RuntimeError(f"scheduler: threads did not finish within {timeout}s "
-                               f"(finished={sorted(self.finished)}, steps={self.steps})")
+                               f"(finished={sorted(self.finished)}, started={sorted(self.started)}, steps={self.steps}, "
+                               f"abort={self.abort}, choices={self.ctx.choices[:40]})\n" + "\n".join(dump))
         for t in threads:
             t.join(timeout)
         if self.harness_error:
@@ -198,6 +210,6 @@ class Sched:
 def _canon(v):
     if v is None or isinstance(v, (bytes, int, str, bool)):
         return v
-    if isinstance(v, (tuple, list, dict)):
+    if isinstance(v, (tuple, list, dict, set, frozenset)):
         return repr(v)
     return type(v).__name__
